@@ -149,6 +149,9 @@ def compile_unit(builds, u, tracedir):
 # ----------------------------------------------------------------------------------------------
 # classification of a failed obligation into a finding key (glue: looks at names only)
 
+INTERNAL = re.compile(r"^(start|body|dead|if_true|if_false|if_join|switch_\w+|while_\w+|do_\w+|for_\w+|logic_\w+|cond_\w+)$")
+
+
 def detail_of(ob, at, u, fname):
     if ob == "JumpsTargetExisting":
         base = at[0].rsplit(".", 1)[0] if at else ""
@@ -159,6 +162,12 @@ def detail_of(ob, at, u, fname):
             return "undefined-goto-label"
         if base and ndef >= 2:
             return "duplicate-label"
+        # the blocks cut out of the ->next chain by a second funclabel() of a user label are the ones missing
+        f = next((g for g in u.mod["funcs"] if g["name"] == fname), None)
+        for b in (f["blocks"] if f else []):
+            lb = b["label"].rsplit(".", 1)[0]
+            if not INTERNAL.match(lb) and len(re.findall(r"(?<![\w?])%s\s*:(?!:)" % re.escape(lb), src)) >= 2:
+                return "duplicate-label"
         return "missing-block"
     if ob == "PhiSourcesArePreds":
         # the phi names a source block that is already closed by a terminator leading elsewhere
@@ -321,6 +330,18 @@ def own_units(targets):
         for t in targets:
             out.append(Unit("own:%s@%s" % (os.path.basename(p), t), "own", pp.stdout, t))
     return out
+
+
+PINNED = [   # the minimal failing input of every known finding (so that the finding is reported by every run until fixed)
+    ("undefined-goto", "void f(void){ goto nolabel; }\n"),
+    ("duplicate-label", "int x; void f(void){ l: x=1; if (x) goto l; l: x=2; }\n"),
+    ("noreturn-arm", "_Noreturn void die(void); int f(int c){ return c ? (die(), 1) : 2; }\n"),
+    ("dead-code-logic", "int f(int a){ return 1; if (0 && a) return 2; return 3; }\n"),
+]
+
+
+def pinned_units(targets):
+    return [Unit("pinned:%s@%s" % (n, t), "pinned", src, t) for n, src in PINNED for t in targets]
 
 
 def stored_qbe_audit(ctx, judge):
@@ -653,6 +674,7 @@ def run(ctx):
             for t in vlib.TARGETS:
                 if t != u.target:
                     units.append(Unit(u.id + "@" + t, "corpus", u.src, t))
+    units += pinned_units(targets)
     units += generated_units(ctx, targets)
     units += mutant_units(ctx, targets)
     tr = ctx.path("tr")
